@@ -14,7 +14,21 @@ def targets_str(body, place):
     return "|".join(ts)
 
 
+def _note_ty(body, e, ty):
+    """side table: type of an expression node (used by the abstract interpreter for range bounds)"""
+    if ty and isinstance(e, tuple):
+        try:
+            body.setdefault("_ety", {})[e] = ty
+        except TypeError:
+            pass
+    return e
+
+
 def expr_place(body, place, depth=0, stop=()):
+    return _note_ty(body, _expr_place(body, place, depth, stop), place.get("ty"))
+
+
+def _expr_place(body, place, depth=0, stop=()):
     if depth > MAXD:
         return ("deep",)
     l = place["l"]
@@ -87,7 +101,7 @@ def expr_local(body, l, depth=0, stop=()):
         t = d[2]
         name_, info = mir.callee(t)
         nm = mir.norm(name_) if name_ else "<indirect>"
-        return ("call", nm, tuple(expr(body, a, depth + 1, stop) for a in t["args"]), name_, d[1])
+        return _note_ty(body, ("call", nm, tuple(expr(body, a, depth + 1, stop) for a in t["args"]), name_, d[1]), t["dest"]["ty"])
     return ("var", l, name or "_%d" % l)
 
 
